@@ -302,7 +302,10 @@ class HailValues:
             d = {self.to_py(t[1], a, True): self.to_py(t[2], b, frozen) for a, b in v[1]}
             return self.frozendict(d) if frozen else d
         if k == 'struct':
-            return self.Struct(**{n: self.to_py(ft, x, frozen) for (n, ft), x in zip(t[1], v[1])})
+            fields = {n: self.to_py(ft, x, frozen) for (n, ft), x in zip(t[1], v[1])}
+            if 'self' in fields:      # hl.Struct(self=…) is a TypeError; a struct value may be any Mapping
+                return self.frozendict(fields) if frozen else fields
+            return self.Struct(**fields)
         if k == 'tuple':
             return tuple(self.to_py(et, x, frozen) for et, x in zip(t[1], v[1]))
         if k == 'ndarray':
